@@ -1,15 +1,283 @@
-(* Proofs about the code generator model. *)
+(* Proofs about the code generator model: every name of a legal interface reaches the wire under
+   its IDL spelling (through the proxy macro / serde / ReplyError models of Codegen.v), and the
+   generator's keyword list covers the Rust Reference's. *)
 From ZV Require Import Codegen.IdlTy Codegen.Names gen.Keywords Codegen.Codegen.
+From Coq Require Import Lia.
 Open Scope string_scope.
 
+(* ------------------------------------------------------------------ small library facts *)
+Lemma strs_eqb_refl l : strs_eqb l l = true.
+Proof.
+  induction l as [|x l IH]; [reflexivity|]. unfold strs_eqb in *. cbn [list_eqb].
+  now rewrite String.eqb_refl, IH.
+Qed.
+
+Lemma mem_In s l : mem s l = true <-> In s l.
+Proof.
+  unfold mem. rewrite existsb_exists. split.
+  - intros [x [Hin Heq]]. apply String.eqb_eq in Heq. now subst.
+  - intros Hin. exists s. split; [assumption|apply String.eqb_refl].
+Qed.
+
+Lemma all2_map {A B} (p : A -> B -> bool) (f : A -> B) (l : list A) :
+  all2 p l (map f l) = forallb (fun x => p x (f x)) l.
+Proof. induction l as [|x l IH]; [reflexivity|]. cbn [all2 map forallb]. now rewrite IH. Qed.
+
+Lemma all2_app {A B} (p : A -> B -> bool) a a' b b' :
+  all2 p a b = true -> all2 p a' b' = true -> all2 p (a ++ a') (b ++ b') = true.
+Proof.
+  revert b; induction a as [|x a IH]; intros [|y b] H H'; cbn in *; try discriminate; auto.
+  apply andb_prop in H as [H1 H2]. now rewrite H1, (IH _ H2 H').
+Qed.
+
+Lemma forallb_impl {A} (p q : A -> bool) l :
+  (forall x, In x l -> p x = true -> q x = true) -> forallb p l = true -> forallb q l = true.
+Proof.
+  intros H Hp. apply forallb_forall. intros x Hx. apply H; [assumption|].
+  now apply (proj1 (forallb_forall p l) Hp).
+Qed.
+
+(* ------------------------------------------------------------------ identifiers *)
+(* a legal field name is not of the form r#... *)
+Lemma unraw_field_name n : field_name_ok n = true -> unraw n = n.
+Proof.
+  intros H. destruct n as [|a [|b rest]]; try reflexivity. unfold unraw.
+  destruct (Ascii.eqb a "r") eqn:Ea; [|reflexivity].
+  destruct (Ascii.eqb b "#") eqn:Eb; [|reflexivity].
+  apply Ascii.eqb_eq in Ea, Eb. subst. vm_compute in H. discriminate.
+Qed.
+
+Lemma unraw_type_name n : type_name_ok n = true -> unraw n = n.
+Proof.
+  intros H. destruct n as [|a [|b rest]]; try reflexivity. unfold unraw.
+  destruct (Ascii.eqb a "r") eqn:Ea; [|reflexivity].
+  apply Ascii.eqb_eq in Ea. subst. vm_compute in H. discriminate.
+Qed.
+
+(* every keyword the generator cannot write raw is in its keyword list (regenerated lists) *)
+Lemma unrawable_are_keywords :
+  forallb (fun k => mem k generator_keywords) generator_unrawable = true.
+Proof. vm_compute. reflexivity. Qed.
+
+Lemma not_keyword_escape n : is_rust_keyword n = false -> escape_ident n = n.
+Proof.
+  intros H. unfold escape_ident. rewrite H.
+  destruct (is_unrawable n) eqn:U; [|reflexivity].
+  exfalso. unfold is_unrawable in U. apply mem_In in U.
+  pose proof (proj1 (forallb_forall _ _) unrawable_are_keywords n U) as K.
+  unfold is_rust_keyword in H. congruence.
+Qed.
+
+(* ------------------------------------------------------------------ fields *)
+Lemma wire_gen_field f : field_legal f = true -> wire_serde_field (gen_field f) = f_name f.
+Proof.
+  intros L. unfold field_legal in L. apply andb_prop in L as [L _].
+  unfold wire_serde_field, gen_field. cbn [gf_rename gf_ident].
+  destruct (is_rust_keyword (to_snake_case (f_name f))) eqn:K; cbn [orb some_if]; [reflexivity|].
+  destruct (String.eqb (to_snake_case (f_name f)) (f_name f)) eqn:E; cbn [negb some_if]; [|reflexivity].
+  apply String.eqb_eq in E. rewrite E in *. rewrite (not_keyword_escape _ K). now apply unraw_field_name.
+Qed.
+
+Lemma wire_gen_error_field f : field_legal f = true -> wire_error_field (gen_error_field f) = f_name f.
+Proof.
+  intros L. unfold wire_error_field, gen_error_field, gen_field. cbn [gf_rename gf_ident].
+  destruct (is_rust_keyword (to_snake_case (f_name f))) eqn:K; cbn [orb some_if]; [reflexivity|].
+  destruct (String.eqb (to_snake_case (f_name f)) (f_name f)) eqn:E; cbn [negb some_if]; [|reflexivity].
+  apply String.eqb_eq in E. rewrite E in *. now apply not_keyword_escape.
+Qed.
+
+Lemma wire_gen_output_field lt f : wire_serde_field (gen_output_field lt f) = f_name f.
+Proof.
+  unfold wire_serde_field, gen_output_field. cbn [gf_rename gf_ident].
+  destruct (String.eqb (unraw (escape_ident (to_snake_case (f_name f)))) (f_name f)) eqn:E;
+    cbn [negb some_if]; [|reflexivity].
+  now apply String.eqb_eq in E.
+Qed.
+
+Lemma wire_gen_param f : field_legal f = true -> wire_param (gen_param f) = f_name f.
+Proof.
+  intros L. unfold field_legal in L. apply andb_prop in L as [L _].
+  unfold wire_param, wire_serde_field, gen_param. cbn [gf_rename gf_ident].
+  destruct (String.eqb (escape_ident (to_snake_case (f_name f))) (f_name f)) eqn:E;
+    cbn [negb some_if]; [|reflexivity].
+  apply String.eqb_eq in E. rewrite E. now apply unraw_field_name.
+Qed.
+
+Lemma map_wire {A} (w : gfield -> string) (g : A -> gfield) (nm : A -> string) (l : list A) :
+  (forall x, In x l -> w (g x) = nm x) -> strs_eqb (map w (map g l)) (map nm l) = true.
+Proof.
+  intros H. rewrite map_map. rewrite (map_ext_in _ _ _ H). apply strs_eqb_refl.
+Qed.
+
+Lemma fields_legal_in fs x : forallb field_legal fs = true -> In x fs -> field_legal x = true.
+Proof. intros H Hin. exact (proj1 (forallb_forall _ _) H x Hin). Qed.
+
+(* ------------------------------------------------------------------ methods *)
+Lemma wire_gen_method i m :
+  wire_method (codegen i) (gen_method m) = i_name i ++ "." ++ m_name m.
+Proof.
+  unfold wire_method, gen_method, method_rename. cbn [gm_rename gm_ident codegen g_iface].
+  destruct (String.eqb (proxy_pascal (method_ident (m_name m))) (m_name m)) eqn:E;
+    cbn [negb some_if]; [|reflexivity].
+  apply String.eqb_eq in E. now rewrite E.
+Qed.
+
+Lemma method_names_hold i : method_names_ok i (codegen i) = true.
+Proof.
+  unfold method_names_ok. cbn [codegen g_methods]. rewrite map_map.
+  rewrite (map_ext _ _ (wire_gen_method i)). apply strs_eqb_refl.
+Qed.
+
+Lemma params_hold ms :
+  forallb method_legal ms = true -> all2 params_ok ms (map gen_method ms) = true.
+Proof.
+  intros L. rewrite all2_map. revert L. apply forallb_impl. intros m _ Lm.
+  unfold method_legal in Lm. apply andb_prop in Lm as [Lm _]. apply andb_prop in Lm as [_ Li].
+  unfold params_ok, gen_method. cbn [gm_params]. apply map_wire.
+  intros x Hx. apply wire_gen_param. now apply (fields_legal_in (m_inputs m)).
+Qed.
+
+(* ------------------------------------------------------------------ structs *)
+Lemma output_structs_hold ms :
+  all2 struct_fields_ok (map m_outputs (methods_with_outputs ms)) (flat_map gen_output_struct ms) = true.
+Proof.
+  induction ms as [|m ms IH]; [reflexivity|].
+  cbn [methods_with_outputs filter flat_map]. unfold gen_output_struct at 1.
+  destruct (m_outputs m) as [|o os] eqn:O; [exact IH|].
+  cbn [map app all2]. fold (methods_with_outputs ms). rewrite IH, andb_true_r.
+  unfold struct_fields_ok. cbn [gs_fields]. apply map_wire. intros x _. apply wire_gen_output_field.
+Qed.
+
+Lemma custom_structs_hold cs :
+  forallb custom_legal cs = true ->
+  all2 struct_fields_ok (map snd (custom_objects cs)) (gen_custom_structs cs) = true.
+Proof.
+  induction cs as [|c cs IH]; intros L; [reflexivity|].
+  cbn [forallb] in L. apply andb_prop in L as [Lc L]. unfold custom_objects in *. cbn [flat_map].
+  destruct c as [n fs co|n vs co]; cbn [gen_custom_structs app map all2 snd].
+  - rewrite (IH L), andb_true_r. unfold struct_fields_ok. cbn [gs_fields].
+    cbn [custom_legal] in Lc. apply andb_prop in Lc as [_ Lf].
+    apply map_wire. intros x Hx. apply wire_gen_field. now apply (fields_legal_in fs).
+  - exact (IH L).
+Qed.
+
+(* ------------------------------------------------------------------ enum values *)
+(* serde applies rename_all to the unraw'd identifier; the generator compares on the identifier as
+   written. The two agree whenever the result is a legal name. *)
+Lemma serde_snake_unraw id n :
+  field_name_ok n = true -> serde_snake_variant id = n -> serde_snake_variant (unraw id) = n.
+Proof.
+  intros L E. destruct id as [|a [|b rest]]; try exact E. unfold unraw.
+  destruct (Ascii.eqb a "r") eqn:Ea; [|exact E].
+  destruct (Ascii.eqb b "#") eqn:Eb; [|exact E].
+  apply Ascii.eqb_eq in Ea, Eb. subst a b. exfalso.
+  (* serde_snake_variant ("r#" ++ rest) starts with r# : not a legal name *)
+  unfold serde_snake_variant, s2l in E. cbn [list_ascii_of_string serde_snake_aux] in E.
+  rewrite <- E in L. vm_compute in L. discriminate.
+Qed.
+
+Lemma wire_gen_variant e v :
+  ge_rename_all e = Some "snake_case" -> field_name_ok (fst v) = true ->
+  wire_variant e (gen_variant v) = fst v.
+Proof.
+  intros R L. unfold wire_variant, gen_variant, variant_rename. cbn [gv_rename gv_ident]. rewrite R.
+  destruct (String.eqb (serde_snake_variant (variant_ident (fst v))) (fst v)) eqn:E;
+    cbn [negb some_if]; [|reflexivity].
+  apply String.eqb_eq in E. now apply serde_snake_unraw.
+Qed.
+
+Lemma custom_enums_hold cs :
+  forallb custom_legal cs = true ->
+  all2 enum_values_ok (map snd (custom_enums cs)) (gen_custom_enums cs) = true.
+Proof.
+  induction cs as [|c cs IH]; intros L; [reflexivity|].
+  cbn [forallb] in L. apply andb_prop in L as [Lc L]. unfold custom_enums in *. cbn [flat_map].
+  destruct c as [n fs co|n vs co]; cbn [gen_custom_enums app map all2 snd].
+  - exact (IH L).
+  - rewrite (IH L), andb_true_r. unfold enum_values_ok. cbn [ge_variants].
+    cbn [custom_legal] in Lc. apply andb_prop in Lc as [_ Lv].
+    rewrite map_map. erewrite map_ext_in; [apply strs_eqb_refl|].
+    intros v Hv. apply wire_gen_variant; [reflexivity|].
+    exact (proj1 (forallb_forall _ _) Lv v Hv).
+Qed.
+
+(* ------------------------------------------------------------------ errors *)
+(* the only type-like names among the generator's keywords convert to themselves (regenerated list) *)
+Lemma keyword_type_names_are_pascal :
+  forallb (fun k => negb (type_name_ok k) || String.eqb (to_pascal_case k) k) generator_keywords = true.
+Proof. vm_compute. reflexivity. Qed.
+
+Lemma error_ident_is_name n : type_name_ok n = true -> error_ident n = n.
+Proof.
+  intros L. unfold error_ident, is_upper_camel_ident. rewrite L. cbn [andb].
+  destruct (is_rust_keyword n) eqn:K; cbn [negb]; [|reflexivity].
+  unfold is_rust_keyword in K. apply mem_In in K.
+  pose proof (proj1 (forallb_forall _ _) keyword_type_names_are_pascal n K) as P. cbn beta in P.
+  rewrite L in P. cbn [negb orb] in P. now apply String.eqb_eq in P.
+Qed.
+
+Lemma errors_hold i : forallb error_legal (i_errors i) = true -> errors_ok i (codegen i) = true.
+Proof.
+  intros L. unfold errors_ok. cbn [codegen g_errors].
+  destruct (i_errors i) as [|e es] eqn:E; [reflexivity|]. rewrite <- E in *.
+  assert (all2 (error_ok (i_name i) {| gerr_name := interface_name_to_rust (i_name i) ++ "Error";
+                                        gerr_iface := i_name i;
+                                        gerr_variants := map gen_error (i_errors i) |})
+               (i_errors i) (map gen_error (i_errors i)) = true) as H.
+  { rewrite all2_map. revert L. apply forallb_impl. intros x _ Lx.
+    unfold error_legal in Lx. apply andb_prop in Lx as [Ln Lf].
+    unfold error_ok, wire_error, gen_error. cbn [gev_ident gev_fields gerr_iface].
+    rewrite (error_ident_is_name _ Ln), String.eqb_refl. cbn [andb].
+    apply map_wire. intros f Hf. apply wire_gen_error_field. now apply (fields_legal_in (e_fields x)). }
+  rewrite E in H |- *. exact H.
+Qed.
+
+(* ------------------------------------------------------------------ the theorem *)
+Theorem wire_names_hold : forall i, iface_legal i = true -> wire_names_ok i (codegen i) = true.
+Proof.
+  intros i L. unfold iface_legal in L.
+  apply andb_prop in L as [L Le]. apply andb_prop in L as [Lm Lt].
+  unfold wire_names_ok.
+  rewrite (method_names_hold i). cbn [andb].
+  cbn [codegen g_methods g_structs g_enums].
+  rewrite (params_hold _ Lm). cbn [andb].
+  unfold idl_struct_fields.
+  rewrite (all2_app _ _ _ _ _ (output_structs_hold (i_methods i)) (custom_structs_hold _ Lt)). cbn [andb].
+  rewrite (custom_enums_hold _ Lt). cbn [andb].
+  exact (errors_hold i Le).
+Qed.
+
+(* keywords: every strict or reserved keyword that is a legal IDL field name is escaped *)
+Theorem keywords_covered :
+  forall k, In k reference_keywords -> field_name_ok k = true -> In k generator_keywords.
+Proof.
+  assert (forallb (fun k => negb (field_name_ok k) || mem k generator_keywords) reference_keywords = true) as H
+    by (vm_compute; reflexivity).
+  intros k Hin Hl. pose proof (proj1 (forallb_forall _ _) H k Hin) as P. cbn beta in P.
+  rewrite Hl in P. cbn [negb orb] in P. now apply mem_In.
+Qed.
+
+(* the keywords Rust does not accept as raw identifiers are known to the generator as such *)
+Theorem unrawable_covered :
+  forall k, In k not_raw_keywords -> In k generator_unrawable.
+Proof.
+  assert (forallb (fun k => mem k generator_unrawable) not_raw_keywords = true) as H by (vm_compute; reflexivity).
+  intros k Hin. apply mem_In. exact (proj1 (forallb_forall _ _) H k Hin).
+Qed.
+
+(* ------------------------------------------------------------------ witnesses *)
 Definition fld (n : string) (t : idl_ty) : ifield := (n, t, []).
 Definition meth (n : string) (i o : list ifield) : imethod :=
   {| m_name := n; m_inputs := i; m_outputs := o; m_comments := [] |}.
 
-(* witnesses of the pinned tree's defects *)
+(* the interface on which the generator at the pinned commit sent GetUrl / Get2Fa / R#type,
+   i_pv6, NotOk and emitted `pub try: i64` *)
 Definition w_iface : iface :=
   {| i_name := "org.example.w";
-     i_methods := [meth "GetURL" [fld "userId" TInt] [fld "theURL" TString]; meth "Get2FA" [] []];
-     i_types := [CEnum "Family" [("IPv4", []); ("IPv6", [])] []; CObject "Rec" [fld "try" TInt] []];
-     i_errors := [{| e_name := "NotOK"; e_fields := [fld "reasonCode" TInt]; e_comments := [] |}];
+     i_methods := [meth "GetURL" [fld "userId" TInt; fld "self" TBool] [fld "theURL" TString; fld "type" TInt];
+                   meth "Get2FA" [] []; meth "Type" [fld "try" (TOptional (TArray TString))] []];
+     i_types := [CEnum "Family" [("IPv4", []); ("IPv6", []); ("userId", []); ("NOT_SET", []); ("self", [])] [];
+                 CObject "Rec" [fld "try" TInt; fld "crate" TString; fld "theURL" (TCustom "Family")] []];
+     i_errors := [{| e_name := "NotOK"; e_fields := [fld "reasonCode" TInt; fld "yield" TInt]; e_comments := [] |};
+                  {| e_name := "E2BIG"; e_fields := []; e_comments := [] |}];
      i_comments := [] |}.
